@@ -40,6 +40,8 @@ def run(ctx):
                       "('p:bounds' dependants) go through the OWNER's namespace -- queued while its batch is open, flushed there otherwise", floor=1)
     ctx.rule("R06.h", "flush model (shared with R04.h): at the flush every queued watcher -- the callers of depends methods are such watchers -- runs once with the last event per (parameter, "
                       "kind): a slot event ('a:bounds') and a value event of the same parameter in one batch do not shadow each other", floor=1)
+    ctx.rule("R06.w", "depends model, watchers per object: Parameters._update_deps(init=True) interpreted for a method with two KINDS of dependency on one parameter ('a', 'a:bounds') and for one "
+                      "with a plain dependency next to the root of a path ('c', 'sub.x'): one watcher serves a method on its own object -- a batch queues watchers, so two watchers mean two calls", floor=1)
     ctx.rule("R06.c", "the construction path reaches the installation: Parameterized.__init__ calls param._update_deps(init=True) after the values were set, and the depends decorator records "
                       "watch / on_init / the dependency list in _dinfo, the only thing the metaclass reads", floor=2)
     ctx.not_decided += ["that a watcher runs its callback once per batch and only on a change (C05 / C03 decide that for every watcher, these included)",
@@ -84,5 +86,14 @@ def run(ctx):
         ctx.ok("R06.d", f_cl, f_cl.node, "depends model: at class level every plain dependency resolves to (inst=None, cls=the class resolved on), inherited Parameters included")
     from checks.shared import trigger_event_model
     trigger_event_model(ctx, "R06.t")
+    n_w, f_w = depends_model.watchers_per_object(ctx)
+    g_w = ctx.repo.func(P + "Parameters._update_deps")
+    ctx.abstract_cases += n_w
+    for key, msg in f_w:
+        ctx.fail("R06.w", g_w, g_w.node, "depends model (watchers per object): %s" % msg, key="%s::%s" % (g_w.qualname, key),
+                 input="@depends('a', 'a:bounds', watch=True) def m; with batch_call_watchers(p): p.param.a.bounds = (0, 20); p.a = 5 -> m runs twice" if key == "one-watcher-per-kind"
+                 else "@depends('c', 's.x', watch=True) def m; q.param.update(c=1, s=S(x=5)) -> m runs twice")
+    if not f_w:
+        ctx.ok("R06.w", g_w, g_w.node, "depends model: one watcher serves a method on its own object, whatever the kinds of its dependencies")
     from checks.shared import flush_model
     flush_model(ctx, "R06.h")
